@@ -543,6 +543,7 @@ CONTRACT_MSG = [
     ("possible bit shift underflow/overflow", "no-overflow"),
     ("assertion failed", "assert"),
     ("index out of bounds", "index-in-bounds"),
+    ("precondition not met", "index-in-bounds"),      # "precondition not met: index in bounds for this access" (slices)
     ("unreachable", "assert"),
 ]
 INTERNAL_MSG = [
